@@ -1,5 +1,99 @@
 import BigtreeModel.Proto
-/-! Driver handler for property C12: one case (token list) in, one canonical line out. -/
+import BigtreeModel.Query
+/-! Driver handler for property C12 (derived node queries).
+
+* `props node=<id> (T <tree> | B <btree>)` →
+  `anc=… desc=… leaves=… sib=… ls=… rs=… path=… root=… isroot=… isleaf=… depth=… maxdepth=… diam=…`
+  (node lists as ids, `-` for the empty list / `None`);
+* `goto from=<id> to=<id> (T <tree> | B <btree>) [(T <tree> | B <btree>)]` → `ok <ids>` or `rej`
+  (ids are distinct over both trees; each end point is looked up in the tree that contains it).
+-/
 namespace Drv.C12
-def handle (_toks : List String) : String := "unimplemented"
+open Proto Query
+
+/-- address of the node with the given id (driver glue: ids are pre-order indices, hence unique) -/
+def locate (R : Tree) (i : Nat) : Option Addr :=
+  (subtreeLocs R []).find? fun a => idAt R a == some i
+
+def findB (i : Nat) : BTree → Option BTree
+  | .nil => none
+  | .node j n a l r =>
+    if i == j then some (.node j n a l r)
+    else match findB i l with
+      | some b => some b
+      | none => findB i r
+
+def ids (R : Tree) (l : List Addr) : Option String := do
+  let xs ← l.mapM (idAt R)
+  pure (showNats xs)
+
+def optId (R : Tree) : Option Addr → Option String
+  | none => some "-"
+  | some a => (idAt R a).map toString
+
+def bool (b : Bool) : String := if b then "1" else "0"
+
+/-- parse `T <tree>` or `B <btree>`; a binary tree is also returned in its generic view -/
+def parseAny : List String → Option (Tree × Option BTree × List String)
+  | "T" :: rest => do
+    let (t, r) ← parseTree rest
+    pure (t, none, r)
+  | "B" :: rest => do
+    let (b, r) ← parseBTree rest
+    match b.toTrees with
+    | [t] => pure (t, some b, r)
+    | _ => none
+  | _ => none
+
+def dropToTree (toks : List String) : List String :=
+  toks.dropWhile fun t => t ≠ "T" && t ≠ "B"
+
+def props (R : Tree) (bt : Option BTree) (i : Nat) : Option String := do
+  let a ← locate R i
+  let isleaf ← match bt with
+    | none => some (isLeaf R a)
+    | some b => (findB i b).map isLeafB
+  let diam ← match bt with
+    | none => some (diameterAt R a)
+    | some b => (findB i b).map diameterB
+  pure (" ".intercalate [
+    "anc=" ++ (← ids R (ancestors a)),
+    "desc=" ++ (← ids R (descendants R a)),
+    "leaves=" ++ (← ids R (leaves R a)),
+    "sib=" ++ (← ids R (siblings R a)),
+    "ls=" ++ (← optId R (leftSibling R a)),
+    "rs=" ++ (← optId R (rightSibling R a)),
+    "path=" ++ (← ids R (nodePath a)),
+    "root=" ++ (← optId R (some (root a))),
+    "isroot=" ++ bool (isRoot a),
+    "isleaf=" ++ bool isleaf,
+    "depth=" ++ toString (depth a),
+    "maxdepth=" ++ toString (maxDepth R a),
+    "diam=" ++ toString diam])
+
+def handle (toks : List String) : String :=
+  let r : Option String :=
+    match toks with
+    | "props" :: rest => do
+      let i ← (← kv rest "node").toNat?
+      let (R, bt, tail) ← parseAny (dropToTree rest)
+      if !tail.isEmpty then none else props R bt i
+    | "goto" :: rest => do
+      let i ← (← kv rest "from").toNat?
+      let j ← (← kv rest "to").toNat?
+      let (R1, _, tail) ← parseAny (dropToTree rest)
+      let trees ← if tail.isEmpty then some [R1] else do
+        let (R2, _, tail2) ← parseAny tail
+        if !tail2.isEmpty then none else some [R1, R2]
+      let find (k : Nat) : Option Loc := trees.findSome? fun R => (locate R k).map fun a => ⟨R, a⟩
+      let u ← find i
+      let v ← find j
+      match goTo u v with
+      | none => pure "rej"
+      | some p => do
+        -- after the root check both nodes live in `u.tree`
+        pure ("ok " ++ (← ids u.tree p))
+    | _ => none
+  r.getD "bad-op"
+
 end Drv.C12
